@@ -95,14 +95,6 @@ theorem refuses_iff_cycle (g : Graph) (hg : WF g) : topoSort g = none ↔ ∃ u,
 
 /-! ### the check of an observed initializer order -/
 
-theorem withChain_wf (g : Graph) (hg : WF g) (o : List Nat) (ho : ∀ v ∈ o, v ∈ g.nodes) : WF (withChain g o) := by
-  refine ⟨hg.1, fun e he => ?_⟩
-  simp only [withChain, List.mem_append] at he
-  rcases he with h | h
-  · exact hg.2 e h
-  · have := chain_mem o e h
-    exact ⟨ho _ this.1, ho _ this.2⟩
-
 /-- an accepted observed order contains every initializer exactly once -/
 theorem observed_once (g : Graph) (inits o : List Nat) (h : checkObserved g inits o = true) :
     o.Nodup ∧ ∀ v, v ∈ o ↔ v ∈ inits := by
@@ -200,7 +192,7 @@ theorem dup_producer_rejected (m : Manager) (rtype : String) (names : List Strin
   have hemp : names.isEmpty = false := by cases names with | nil => exact absurd rfl hne | cons _ _ => rfl
   have hd : ¬ (longNames rtype names).Nodup ∨ ∃ r ∈ longNames rtype names, r ∈ m.map.map (·.1) := by
     rcases hdup with h | ⟨n, hn, hl⟩
-    · exact Or.inl (fun hnd => h (List.Nodup.of_map _ hnd))
+    · exact Or.inl (fun hnd => h (nodup_of_map _ _ hnd))
     · refine Or.inr ⟨rtype ++ "." ++ n, List.mem_map.mpr ⟨n, hn, rfl⟩, ?_⟩
       rw [← lookup_isSome_iff]; exact hl
   obtain ⟨map', hmap'⟩ := insertNames_dup m.groups.length _ m.map hd
@@ -211,7 +203,7 @@ theorem dup_producer_rejected (m : Manager) (rtype : String) (names : List Strin
 theorem bad_type_rejected (m : Manager) (rtype : String) (names : List String) (producer : String)
     (deps : List String) (ht : resourceTypes.contains rtype = false) :
     addResources m rtype names producer deps = .error (.badType, m) := by
-  simp [addResources, ht]
+  unfold addResources; rw [ht]; rfl
 
 /-- an accepted registration: every name was free, the group is appended with exactly the declared
 producer and dependencies -/
@@ -235,7 +227,7 @@ theorem accepted_registration (m m' : Manager) (rtype : String) (names : List St
       · simp only [groupOf, hg]; unfold getResourceGroup; split <;> rfl
       · have := h3 r hr
         rw [← lookup_isSome_iff] at this
-        simpa [lookup] using this
+        exact Option.not_isSome_iff_eq_none.mp this
     · cases h
 
 /-- registrations in any number and order, refused ones skipped as a catching caller would -/
@@ -254,9 +246,7 @@ theorem producers_unique (l : List (String × List String × String × List Stri
   | cons a rest ih =>
     obtain ⟨t, ns, p, ds⟩ := a
     simp only [addAll]
-    have key : ∀ names gid, match insertNames gid m.map names with
-        | .ok mp => (mp.map (·.1)).Nodup | .error mp => (mp.map (·.1)).Nodup :=
-      fun names gid => insertNames_nodup gid names m.map h
+    have key := insertNames_nodup m.groups.length (getResourceGroup m.nullCount t ns p ds).1.names m.map h
     cases hres : addResources m t ns p ds with
     | ok m' =>
       apply ih
@@ -266,7 +256,7 @@ theorem producers_unique (l : List (String × List String × String × List Stri
       · split at hres
         · rename_i mp hins
           cases hres
-          have := key _ _; rw [hins] at this; exact this
+          rw [hins] at key; exact key
         · cases hres
     | error em =>
       obtain ⟨e, m'⟩ := em
@@ -278,7 +268,7 @@ theorem producers_unique (l : List (String × List String × String × List Stri
         · cases hres
         · rename_i mp hins
           cases hres
-          have := key _ _; rw [hins] at this; exact this
+          rw [hins] at key; exact key
 
 /-- the iterated list contains each initializer node exactly once (and nothing else) -/
 theorem initializers_once (m : Manager) (l : List Nat) (h : iterNodes m (toGraph m) = some l) :
@@ -309,13 +299,6 @@ theorem iteration_refused_iff_cycle (m : Manager) :
 
 /-! ### what the registration services declare (the implicit dependencies) -/
 
-theorem liftRm_ok {s s' : Sim} {r : Except (Err × Manager) Manager} (h : liftRm s r = .ok s') :
-    ∃ m, r = .ok m ∧ s' = { s with rm := m } := by
-  unfold liftRm at h
-  split at h
-  · cases h; exact ⟨_, rfl, rfl⟩
-  · cases h
-
 /-- `register_simulant_initializer` registers one group whose producer is the initializer and whose
 dependencies are the declared columns, values and streams plus the implicit `column.tracked` -/
 theorem initializer_declares (s s' : Sim) (comp label : String) (creates rc rv rs : List String)
@@ -333,7 +316,7 @@ theorem initializer_declares (s s' : Sim) (comp label : String) (creates rc rv r
 
 theorem tracked_implicit (creates rc rv rs : List String) (h : creates.contains "tracked" = false) :
     "column.tracked" ∈ initDeps creates rc rv rs := by
-  simp [initDeps, h]
+  simp only [initDeps, h]; simp
 
 theorem declared_requirements_kept (creates rc rv rs : List String) :
     (∀ c ∈ rc, "column." ++ c ∈ initDeps creates rc rv rs) ∧ (∀ v ∈ rv, "value." ++ v ∈ initDeps creates rc rv rs) ∧
@@ -349,7 +332,7 @@ refused before the resource manager is even asked -/
 theorem second_initializer_rejected (s : Sim) (comp label : String) (creates rc rv rs : List String)
     (h : s.initComponents.contains comp = true) :
     registerInitializer s comp label creates rc rv rs = .error .dupInitializer := by
-  simp [registerInitializer, h]
+  simp only [registerInitializer, h, if_true]
 
 /-- a randomness stream (one that does not initialize CRN attributes) depends on every key column -/
 theorem stream_depends_on_key_columns (s s' : Sim) (name : String) (h : getStream s name false = .ok s') :
@@ -366,58 +349,103 @@ theorem value_depends_on_source (s : Sim) (p : Pipe) (h : p.hasSource = true) :
     "value_source." ++ p.key ∈ valueDeps s p := by
   simp [valueDeps, h]
 
-theorem mem_enumFrom {α : Type} : ∀ (l : List α) (n k : Nat) (a : α), l[k]? = some a → (n + k, a) ∈ enumFrom n l := by
-  intro l
-  induction l with
-  | nil => intro n k a h; simp at h
-  | cons x xs ih =>
-    intro n k a h
-    cases k with
-    | zero => simp only [List.getElem?_cons_zero, Option.some.injEq] at h; simp [enumFrom, h]
-    | succ k =>
-      simp only [List.getElem?_cons_succ] at h
-      have := ih (n + 1) k a h
-      simp only [enumFrom, List.mem_cons]
-      right
-      have e : n + (k + 1) = n + 1 + k := by omega
-      rw [e]; exact this
-
 /-- … and on every modifier, under the number it got when it was registered -/
 theorem value_depends_on_modifier (s : Sim) (p : Pipe) (k : Nat) (c : Callable) (h : p.mutators[k]? = some c) :
     "value_modifier." ++ p.key ++ "." ++ toString (1 + k) ++ "." ++ modifierName s c ∈ valueDeps s p := by
   simp only [valueDeps, List.mem_append, List.mem_map]
   exact Or.inr ⟨(1 + k, c), mem_enumFrom _ 1 k c h, rfl⟩
 
-theorem findPipe_touch (s : Sim) (key : String) : ∃ p, findPipe (touchPipe s key) key = some p ∧ p.key = key := by
-  unfold touchPipe
-  split
-  · rename_i h
-    obtain ⟨p, hp⟩ := Option.isSome_iff_exists.mp h
-    refine ⟨p, hp, ?_⟩
-    have := List.find?_some hp
-    simpa using this
-  · rename_i h
-    have hnone : findPipe s key = none := by simpa using h
-    refine ⟨{ key := key }, ?_, rfl⟩
-    simp only [findPipe] at hnone ⊢
-    rw [List.find?_append, hnone]
-    simp
+/-- the group `on_post_setup` registers for pipeline `p` -/
+def valueGroup (s : Sim) (p : Pipe) : Group :=
+  ⟨"value", ["value." ++ p.key], "pipeline." ++ p.key, valueDeps s p⟩
 
-theorem findPipe_update (s : Sim) (key : String) (f : Pipe → Pipe) (hf : ∀ p, (f p).key = p.key) (p : Pipe)
-    (h : findPipe s key = some p) : findPipe (updatePipe s key f) key = some (f p) := by
-  simp only [findPipe, updatePipe] at h ⊢
-  induction s.pipes with
-  | nil => simp at h
-  | cons q qs ih =>
-    simp only [List.map_cons, List.find?_cons] at h ⊢
-    by_cases hq : (q.key == key) = true
-    · simp only [hq, if_true] at h ⊢
-      cases h
-      have : ((f q).key == key) = true := by rw [hf]; exact hq
-      simp [this]
-    · have hq' : (q.key == key) = false := by simpa using hq
-      simp only [hq'] at h ⊢
-      simpa using ih h
+theorem postSetup_fold (s0 : Sim) : ∀ (ps : List Pipe) (s s' : Sim),
+    ps.foldlM (fun s' p => liftRm s' (addResources s'.rm "value" [p.key] ("pipeline." ++ p.key) (valueDeps s0 p))) s = .ok s' →
+      s'.rm.groups = s.rm.groups ++ ps.map (valueGroup s0) := by
+  intro ps
+  induction ps with
+  | nil => intro s s' h; simp only [List.foldlM_nil, pure, Except.pure, Except.ok.injEq] at h; simp [h]
+  | cons p ps ih =>
+    intro s s' h
+    simp only [List.foldlM_cons, bind, Except.bind] at h
+    split at h
+    · cases h
+    · rename_i s1 h1
+      obtain ⟨m, hm, rfl⟩ := liftRm_ok h1
+      have hg := (accepted_registration _ _ _ _ _ _ hm).1
+      have := ih _ _ h
+      rw [this]
+      simp only [hg, List.map_cons, List.append_assoc, List.singleton_append]
+      rfl
+
+/-- `on_post_setup` registers, for every pipeline, the value with its source and all its modifiers as
+dependencies -/
+theorem postSetup_declares (s s' : Sim) (h : postSetup s = .ok s') :
+    s'.rm.groups = s.rm.groups ++ s.pipes.map (valueGroup s) := postSetup_fold s s.pipes s s' h
+
+theorem accepted_group (m m' : Manager) (rtype : String) (names : List String) (producer : String)
+    (deps : List String) (h : addResources m rtype names producer deps = .ok m') :
+    groupOf m' m.groups.length = (getResourceGroup m.nullCount rtype names producer deps).1 := by
+  have := (accepted_registration m m' rtype names producer deps h).1
+  simp [groupOf, this, List.getD]
+
+theorem touchPipe_rm (s : Sim) (key : String) : (touchPipe s key).rm = s.rm := by
+  unfold touchPipe; split <;> rfl
+
+/-- `register_value_modifier` appends the modifier to the pipeline and registers it under the pipeline's
+key, its position and its name -/
+theorem modifier_registers (s s' : Sim) (key : String) (c : Callable) (rc rv rs : List String)
+    (h : registerModifier s key c rc rv rs = .ok s') :
+    ∃ p', findPipe s' key = some p' ∧ p'.mutators.getLast? = some c ∧
+      (groupOf s'.rm s.rm.groups.length).names =
+        ["value_modifier." ++ key ++ "." ++ toString p'.mutators.length ++ "." ++ modifierName s c] := by
+  obtain ⟨p, hp, _⟩ := findPipe_touch s key
+  have hup := findPipe_update (touchPipe s key) key
+    (fun p => { p with named := true, mutators := p.mutators ++ [c] }) (fun _ => rfl) p hp
+  unfold registerModifier at h
+  simp only [hup, Option.map_some, Option.getD_some] at h
+  obtain ⟨m, hm, rfl⟩ := liftRm_ok h
+  refine ⟨_, hup, by simp, ?_⟩
+  have hrm : (updatePipe (touchPipe s key) key
+      (fun p => { p with named := true, mutators := p.mutators ++ [c] })).rm = s.rm := by
+    simp [updatePipe, touchPipe_rm]
+  rw [hrm] at hm
+  have := accepted_group _ _ _ _ _ _ hm
+  simp only [this]
+  simp [getResourceGroup, longNames, String.append_assoc]
+
+
+
+/-- the name of a callable that is not a `Pipeline` object does not depend on the registration state -/
+theorem modifierName_plain (s s' : Sim) (c : Callable) (hc : ∀ k, c ≠ .pipeline k) :
+    modifierName s' c = modifierName s c := by
+  cases c with
+  | pipeline k => exact absurd rfl (hc k)
+  | named n => rfl
+  | method o f => rfl
+  | func n => rfl
+
+/-- the names line up: the resource a modifier is registered under is among the dependencies
+`on_post_setup` computes for that pipeline (so the edge modifier → value exists); for a `Pipeline` object
+this needs its name to be the same at both moments – what finding F17 violated and `pipeline_object_named`
+now guarantees -/
+theorem modifier_resource_is_value_dependency (s s' : Sim) (key : String) (c : Callable) (rc rv rs : List String)
+    (h : registerModifier s key c rc rv rs = .ok s') (hc : modifierName s' c = modifierName s c) :
+    ∃ p', findPipe s' key = some p' ∧ ∀ r ∈ (groupOf s'.rm s.rm.groups.length).names, r ∈ valueDeps s' p' := by
+  obtain ⟨p', hp', hlast, hnames⟩ := modifier_registers s s' key c rc rv rs h
+  refine ⟨p', hp', fun r hr => ?_⟩
+  rw [hnames, List.mem_singleton] at hr
+  have hkey : p'.key = key := by
+    have := List.find?_some hp'
+    simpa using this
+  have hlen : p'.mutators ≠ [] := by intro h0; rw [h0] at hlast; simp at hlast
+  have hk : p'.mutators[p'.mutators.length - 1]? = some c := by
+    rw [List.getLast?_eq_getElem?] at hlast; exact hlast
+  have := value_depends_on_modifier s' p' (p'.mutators.length - 1) c hk
+  have hl : 1 + (p'.mutators.length - 1) = p'.mutators.length := by
+    have := List.length_pos_iff.mpr hlen; omega
+  rw [hl, hc, hkey] at this
+  rw [hr]; exact this
 
 /-- a `Pipeline` object handed out by `get_value` knows its key (the repair of finding F17), so using it
 as a source or modifier declares the dependency `value.<key>` whatever the supply order -/
@@ -451,14 +479,14 @@ def producersInOrder (r : R) : Option (List String) :=
   | .error _ => none
 
 example : producersInOrder (adversarial true) = some ["population_manager", "clock", "W", "X", "Y", "Z", "A"] := by decide
-example : producersInOrder (adversarial false) = some ["population_manager", "clock", "A", "W", "X", "Y", "Z"] := by decide
+example : producersInOrder (adversarial false) = some ["population_manager", "clock", "W", "A", "X", "Y", "Z"] := by decide
 
 -- hypotheses inhabited: a certified order, an accepted and a refused observed order, a cycle, a duplicate
 def g4 : Graph := ⟨[1, 2, 3, 4], [(3, 1), (1, 2), (4, 2)]⟩
-example : WF g4 := by decide
+example : WF g4 := ⟨by decide, by decide⟩
 example : topoSort g4 = some [3, 4, 1, 2] ∧ checkOrder g4 [3, 4, 1, 2] = true := by decide
 example : checkObserved g4 [3, 2] [3, 2] = true ∧ checkObserved g4 [3, 2] [2, 3] = false := by decide
-example : Path ⟨[1, 2], [(1, 2), (2, 1)]⟩ 1 1 := Path.trans (Path.edge (by decide)) (Path.edge (by decide))
+example : Path ⟨[1, 2], [(1, 2), (2, 1)]⟩ 1 1 := Path.trans (v := 2) (Path.edge (by decide)) (Path.edge (by decide))
 example : topoSort ⟨[1, 2], [(1, 2), (2, 1)]⟩ = none := by decide
 example : (match addResources {} "column" ["a", "a"] "p" [] with | .error (.dupResource, _) => true | _ => false) = true := by decide
 
